@@ -87,6 +87,12 @@ def run(ck, F):
                    '(word.data(), word.length()): every byte of the request, embedded NULs included, and no other', floor=1)
     import c03 as _c03
     _c03.one_pool(ck, F, 'C04')
+    # values spelled alike compare equal only if equal spellings are one String (the empty spelling included), and only while what a
+    # value node refers to outlives the call that built it
+    import c15 as _c15
+    _c15.one_string_rule(ck, F, 'C04')
+    import history as _history
+    _history.call_storage_rule(ck, F, 'C04')
     # names recognise a reserved spelling by the identity of the String it is interned as: a reserved spelling must come out of the
     # pool as the reserved-word node, whatever it looks like (the table also holds `C`, `C++`, `...` and `=0`)
     import words as _words2
